@@ -23,9 +23,9 @@ func init() {
 func streamC16(env *runEnv) {
 	r := rand.New(rand.NewSource(env.seed))
 	type job struct {
-		cfg   procCfg
-		kind  int
-		seed  int64
+		cfg  procCfg
+		kind int
+		seed int64
 	}
 	var jobs []job
 	idles := []int{-2147483648, -1, 0, 1, 30, 2147483647}
